@@ -572,7 +572,7 @@ func TestC25(t *testing.T) {
 				ifID, neigh = c25IfID(in.lt, nj), pool[nj]
 			}
 			viol := func(key string, detail func() map[string]any) {
-				violRanked(key, fmt.Sprintf("%d/%04d/%s/%s/%v/%s", len(ias), si, in.name, svc.cfg.String(), !v.nextLocal,
+				violRanked(key, fmt.Sprintf("%d/%04d/%s/%03d%s/%v/%s", len(ias), si, in.name, len(svc.cfg.String()), svc.cfg.String(), !v.nextLocal,
 					v.sig.String()), detail)
 			}
 			detail := func() map[string]any {
